@@ -93,6 +93,10 @@ func c03Scenario(r *vk.RNG) *pipeScenario {
 		// names the configuration accepts and that need quoting in SQL text: the unwind addresses the same table as the inserts
 		ps.Table = vk.Pick(r, []string{"Transfers_A", "erc20-t_a", "order"})
 	}
+	if r.Chance(1, 6) {
+		// the identity fields stored under column names of the user's choice: the unwind has to address those
+		ps.RenameIdent, ps.Table = true, "t_ren"
+	}
 	return ps
 }
 
